@@ -469,6 +469,22 @@ Definition add_block (s : arena) (ptr size align : Z) : arena * nat :=
   let id := nextid s in
   (bump_id (upd_live s (mkBlock id ptr size align (epoch s) :: live s)), id).
 
+(* Splitting an owned block in two (BumpBox::split_at, split_off, ...) is not an operation of the
+   arena: no allocator method runs.  Only the bookkeeping of who owns which bytes changes: block
+   `b` is replaced by its first `mid` bytes and the rest, each a live block of its own (the second
+   one with the alignment `ralign` its owner will quote when it deallocates / grows / shrinks it).
+   Both inherit the scope the original was born in. *)
+Definition split_block (s : arena) (b : nat) (mid ralign : Z) : arena :=
+  match find_block s b with
+  | None => s
+  | Some blk =>
+    let s1 := remove_block s b in
+    let id := nextid s1 in
+    bump_id (bump_id (upd_live s1
+      (mkBlock (S id) (bptr blk + mid) (bsize blk - mid) ralign (born blk) ::
+       mkBlock id (bptr blk) mid (balign blk) (born blk) :: live s1)))
+  end.
+
 (* events logged by a step = new prefix of the ledger *)
 Definition new_events (before after : arena) : list event :=
   rev (firstn (length (ledger after) - length (ledger before)) (ledger after)).
